@@ -20,7 +20,7 @@ import ast
 import re
 from typing import Dict, List, Optional, Set, Tuple
 
-from ..astutil import call_name, const_num, names_in
+from ..astutil import call_name, const_num, names_in, with_folded
 from ..loader import FuncInfo, Program, dotted, enclosing_stmt, parent, short, walk_own
 from ..report import BAD, INFO, OK, UNDET, Instance
 
@@ -324,6 +324,10 @@ class AxisTyper:
             return None
         if isinstance(e, ast.Starred):
             return self.tag(e.value, depth + 1)
+        if isinstance(e, (ast.Tuple, ast.List)) and e.elts:
+            # [x0, x1]: a collection of values of one axis is of that axis
+            tags = {self.tag(x, depth + 1) for x in e.elts}
+            return tags.pop() if len(tags) == 1 else None
         return None
 
     def order(self, e: Optional[ast.AST], depth: int = 0) -> Optional[Tuple[str, ...]]:
@@ -449,7 +453,7 @@ def rule_axis(prog: Program, modules: Set[str]) -> List[Instance]:
         b = Beliefs(fi)
         ty = AxisTyper(fi, b, prog)
         counter: Dict[str, int] = {}
-        for n in walk_own(fi.node):
+        for n in with_folded(walk_own(fi.node)):
             # ---------------- T1: sinks
             if isinstance(n, ast.Call):
                 nm = call_name(n)
